@@ -145,10 +145,14 @@ func oracleC17(v *View, vd *Verdict) {
 			}
 			var mid uint16
 			found := false
+			pubT, relT := int64(-1), int64(-1) // first transmission of each step
 			for _, t := range tx {
-				if t.Idx > a.invIdx && t.Idx < a.retIdx && t.SNErr == nil && t.SN.Type == refsn.PUBLISH {
+				if t.Idx > a.invIdx && t.Idx < a.retIdx && t.SNErr == nil && t.SN.Type == refsn.PUBLISH && !found {
 					mid, found = t.SN.MsgID, true
-					break
+					pubT = t.T
+				}
+				if found && relT < 0 && t.Idx > a.invIdx && t.Idx < a.retIdx && t.SNErr == nil && t.SN.Type == refsn.PUBREL && t.SN.MsgID == mid {
+					relT = t.T
 				}
 			}
 			if !found {
@@ -156,6 +160,13 @@ func oracleC17(v *View, vd *Verdict) {
 			}
 			mids[a.idx] = mid
 			vd.Trigger = true
+			// "within the retry budget": each step allows (RetryCount+1) x RetryDelay from its first
+			// transmission; an acknowledgement read later than that (less what the scheduler stalled
+			// the client for) came too late, and the call is right to fail
+			budget := (int64(cp.RetryCount) + 1) * cp.RetryDelayMs * nsMs
+			inTime := func(stepT, ackT int64) bool {
+				return stepT >= 0 && ackT <= stepT+budget-v.R.StalledNs-nsMs
+			}
 			acked := false
 			gotRec := false
 			for _, r := range rx {
@@ -164,11 +175,11 @@ func oracleC17(v *View, vd *Verdict) {
 				}
 				switch {
 				case q == 1 && r.SN.Type == refsn.PUBACK && r.SN.RC == refsn.RCAccepted:
-					acked = true
+					acked = inTime(pubT, r.T)
 				case q == 2 && r.SN.Type == refsn.PUBREC:
-					gotRec = true
+					gotRec = inTime(pubT, r.T)
 				case q == 2 && r.SN.Type == refsn.PUBCOMP && gotRec:
-					acked = true
+					acked = inTime(relT, r.T)
 				}
 			}
 			if acked && a.err != "nil" {
